@@ -2,6 +2,7 @@ package vkit
 
 import (
 	"encoding/json"
+	"os"
 	"testing"
 
 	"pgregory.net/rapid"
@@ -44,11 +45,16 @@ func (c *Collector) Account(cs any, o *Outcome) *Violation {
 	return v
 }
 
+var saveCurrent = os.Getenv("VERIF_SAVE_CURRENT") != ""
+
 // Check drives gen -> run under rapid; failing cases are saved so that the
 // last (minimal) one becomes the replay file.
 func Check[C any](t *testing.T, c *Collector, gen func(*rapid.T) C, run func(C) *Outcome) {
 	rapid.Check(t, func(rt *rapid.T) {
 		cs := gen(rt)
+		if saveCurrent {
+			SaveCurrent(c.s.Property, c.s.Test, cs)
+		}
 		if v := c.Account(cs, run(cs)); v != nil {
 			SaveFail(c.s.Property, c.s.Test, cs, v)
 			rt.Fatalf("%s", v.Error())
